@@ -35,7 +35,8 @@ ASSUMPTIONS = [
 TECHNIQUE = 'property-based testing (Hypothesis): validity predicate over every factor record, all checks x drawn constructor parameters x weak/degenerate families'
 
 FAMILIES = ('healthy', 'degenerate', 'fermat', 'shared', 'upper', 'pattern', 'permuted', 'lowhw',
-            'smooth', 'shared_prime', 'nested', 'dup', 'two_partners', 'tiny_factor', 'near_lowhw', 'near_square')
+            'smooth', 'shared_prime', 'nested', 'dup', 'two_partners', 'tiny_factor', 'near_lowhw', 'near_square',
+            'keypair')
 
 
 def build_batch(desc):
@@ -112,6 +113,13 @@ def build_batch(desc):
       a = mat.odd(hb)
       b = 2 * mat.below(1 << (spec['k'] % 20 + 1))
       n = a * a - b * b + [2, -2, 4, 1, -1][spec['k'] % 5]
+    elif f == 'keypair':
+      # a key of the vulnerable keypair generator (seed covered by the shipped table) followed by a modulus
+      # that merely shares its 64 most significant bits
+      from paranoid_crypto.lib import keypair_generator  # pylint: disable=g-import-not-at-top
+      p, q = keypair_generator.Generator(bytes([spec['k'] % 256] + [0] * 31)).generate_key(2048)
+      ns.append(int(p) * int(q))
+      n = (int(p) * int(q)) ^ (1 << (100 + spec['k'] % 1500)) | 1
     elif f == 'tiny_factor':
       n = mat.prime(2 + spec['k'] % 12) * mat.prime(max(64, bits))
     else:
@@ -240,6 +248,7 @@ AIM = {
     'degenerate': ['CheckFermat', 'CheckHighAndLowBitsEqual', 'CheckContinuedFractions',
                    'CheckBitPatterns', 'CheckLowHammingWeight', 'CheckPollardpm1'],
     'near_lowhw': ['CheckLowHammingWeight'], 'near_square': ['CheckFermat', 'CheckHighAndLowBitsEqual'],
+    'keypair': ['CheckKeypairDenylist'],
     'healthy': ['CheckGCDN1', 'CheckGCD'], 'tiny_factor': ['CheckBitPatterns', 'CheckContinuedFractions'],
 }
 
@@ -388,7 +397,7 @@ def run_helpers(desc):
 
 HELPERS = ['FermatFactor', 'FactorHighAndLowBitsEqual', 'CheckContinuedFraction', 'CheckFraction',
            'Pollardpm1', 'CheckLowHammingWeight', 'FactorWithGuess', 'CheckSmallUpperDifferences']
-_SOLO = tuple(f for f in FAMILIES if f not in ('shared_prime', 'nested', 'dup', 'two_partners'))
+_SOLO = tuple(f for f in FAMILIES if f not in ('shared_prime', 'nested', 'dup', 'two_partners', 'keypair'))
 
 
 def strat_helpers(tier):
